@@ -13,15 +13,22 @@ SCR="$(mktemp -d "${TMPDIR:-/var/tmp}/verif-scratch.XXXXXX")"
 trap 'rm -rf "$SCR"' EXIT
 export VERIF_SCRATCH="$SCR"
 cmp -s "$REPO/go.sum" go.sum || cp "$REPO/go.sum" go.sum
+export VERIF_REPO="$REPO"
+MODFLAG=""
+if [ "$REPO" != "/repo" ]; then
+  # build against another checkout of the repository (e.g. a snapshot): private go.mod with the replace re-pointed
+  sed "s#=> /repo#=> $REPO#" go.mod > "$SCR/go.mod"; cp go.sum "$SCR/go.sum"
+  MODFLAG="-modfile=$SCR/go.mod"
+fi
 
 INSTR_PROPS=" C02 C14 C20 "
 
 build_plain() {
-  go build -o "$SCR/vcheck" ./cmd/vcheck 2>"$SCR/build.log" || { cat "$SCR/build.log"; echo "CHECK-BROKEN: build failed"; exit 2; }
+  go build $MODFLAG -o "$SCR/vcheck" ./cmd/vcheck 2>"$SCR/build.log" || { cat "$SCR/build.log"; echo "CHECK-BROKEN: build failed"; exit 2; }
 }
 build_instr() { # $1 = extra go build flags (e.g. -race)
-  go run ./instr -repo "$REPO" -out "$SCR/overlay" >"$SCR/instr.log" 2>&1 || { cat "$SCR/instr.log"; echo "CHECK-BROKEN: instrumentation failed"; exit 2; }
-  go build $1 -tags verifoverlay -overlay "$SCR/overlay/overlay.json" -o "$SCR/vcheck" ./cmd/vcheck 2>"$SCR/build.log" || { cat "$SCR/build.log"; echo "CHECK-BROKEN: instrumented build failed"; exit 2; }
+  go run $MODFLAG ./instr -repo "$REPO" -out "$SCR/overlay" >"$SCR/instr.log" 2>&1 || { cat "$SCR/instr.log"; echo "CHECK-BROKEN: instrumentation failed"; exit 2; }
+  go build $MODFLAG $1 -tags verifoverlay -overlay "$SCR/overlay/overlay.json" -o "$SCR/vcheck" ./cmd/vcheck 2>"$SCR/build.log" || { cat "$SCR/build.log"; echo "CHECK-BROKEN: instrumented build failed"; exit 2; }
 }
 
 case "${1:-}" in
